@@ -20,7 +20,7 @@ from oracle import balls
 
 RULE = ("Histories: words over the per-class operation alphabet obtained by reflection (every settable property whose getter "
         "works on the current shape, diagonalize_inertia, merge_faces, sort_faces, to_hoomd, reads of memoised observables, and "
-        "failing operations: zero/negative/NaN targets, get_dihedral of non-neighbours) applied to 11 shape kinds. Exhaustive for "
+        "failing operations: zero/negative/NaN targets, get_dihedral of non-neighbours) applied to 12 shape kinds. Exhaustive for "
         "words of length <=2 (quick) / <=3 on a reduced alphabet (thorough) from fixed chiral off-origin base shapes; drawn words "
         "of length <=8 (quick) / <=30 (thorough) on generated base shapes. Oracle after every step: all public observables equal "
         "those of type(obj)(current vertices[, faces, normal, radius]) (canonical: face data keyed by vertex set); no mirroring "
@@ -36,7 +36,7 @@ CENTRES = [(0.0, 0.0, 0.0), (3.0, -2.0, 1.0), (-1.0, 4.0, 2.0), (10.0, -7.0, 5.0
 METHOD_OPS = ["diagonalize_inertia", "merge_faces", "sort_faces", "to_hoomd"]
 READ_OPS = ["read:edges", "read:inertia_tensor", "read:get_face_area", "read:is_inside", "read:all"]
 
-KINDS = ["ConvexPolyhedron", "Polyhedron", "PolyhedronTri", "ConvexSpheropolyhedron", "Polygon", "ConvexPolygon",
+KINDS = ["ConvexPolyhedron", "Polyhedron", "PolyhedronTri", "PolyhedronUnflagged", "ConvexSpheropolyhedron", "Polygon", "ConvexPolygon",
          "ConvexSpheropolygon", "Circle", "Ellipse", "Sphere", "Ellipsoid"]
 
 # fixed base geometry: a chiral, off-origin convex solid with a quadrilateral facet
@@ -57,6 +57,10 @@ def make(kind, V3=None, V2=None, radius=0.4):
         return S.ConvexPolyhedron(V3.copy())
     if kind == "Polyhedron":
         return S.Polyhedron(V3.copy(), [np.array(f) for f in _facets(V3)], True)
+    if kind == "PolyhedronUnflagged":
+        # faces_are_convex left to its default: with non-triangular faces the faces are not taken as convex, every
+        # measure goes through the ear-clipping triangulation, and merge_faces / sort_faces are documented to refuse
+        return S.Polyhedron(V3.copy(), [np.array(f) for f in _facets(V3)])
     if kind == "PolyhedronTri":
         tris = [[f[0], f[i], f[i + 1]] for f in _facets(V3) for i in range(1, len(f) - 1)]
         return S.Polyhedron(V3.copy(), [np.array(t) for t in tris])
@@ -77,6 +81,10 @@ def make(kind, V3=None, V2=None, radius=0.4):
     return S.Ellipsoid(1.3, 0.6, 2.1, (0.5, -0.2, 0.8))
 
 
+def _flagged_convex(obj):
+    return bool(getattr(obj, "_faces_are_convex", True))
+
+
 def fresh(obj):
     """A newly constructed shape with the same current defining data."""
     if isinstance(obj, S.ConvexSpheropolyhedron):
@@ -84,7 +92,7 @@ def fresh(obj):
     if isinstance(obj, S.ConvexPolyhedron):
         return S.ConvexPolyhedron(np.array(obj.vertices))
     if isinstance(obj, S.Polyhedron):
-        return S.Polyhedron(np.array(obj.vertices), [np.array(f) for f in obj.faces], True)
+        return S.Polyhedron(np.array(obj.vertices), [np.array(f) for f in obj.faces], _flagged_convex(obj))
     if isinstance(obj, S.ConvexSpheropolygon):
         return S.ConvexSpheropolygon(np.array(obj.vertices), obj.radius, normal=np.array(obj.normal))
     if isinstance(obj, S.ConvexPolygon):
@@ -262,6 +270,14 @@ def step(rec, obj, op, arg, sig, state):
         return False, False
     if op in ("merge_faces", "sort_faces") and isinstance(obj, S.ConvexSpheropolyhedron):
         return False, False
+    if op in ("merge_faces", "sort_faces") and not _flagged_convex(obj):
+        # documented refusal (the ordering of a non-convex face cannot be determined): must raise and change nothing
+        before = observe.canonical(observe.observe(obj))
+        r = call(getattr(obj, op))
+        rec.check(isinstance(r, Raised) and r.type == "ValueError", "failing_op_raises_ValueError", dict(sig, op=op), got=repr(r)[:80])
+        unchanged("after_failed_op")
+        rec.label("refused:" + op)
+        return True, False
     r = call(getattr(obj, op))
     if isinstance(r, Raised):
         rec.fail("valid_op_raised", dict(sig, op=op, type=r.type), msg=r.msg)
@@ -351,7 +367,7 @@ def _hist_case(draw, max_len):
         pool = muts if k < 6 else (reads if k < 8 else bads)
         word.append([draw(st.sampled_from(pool)), draw(st.integers(0, 5))])
     c = {"kind": kind, "word": word, "radius": draw(zoo.f(0.05, 1.5))}
-    if kind in ("ConvexPolyhedron", "Polyhedron", "PolyhedronTri", "ConvexSpheropolyhedron"):
+    if kind in ("ConvexPolyhedron", "Polyhedron", "PolyhedronTri", "PolyhedronUnflagged", "ConvexSpheropolyhedron"):
         c["cvx"] = draw(zoo.convex3d(max_n=10, kinds=("ellipsoid", "lattice", "prismatoid")))
         c["place"] = draw(zoo.placement(max_offset=4.0))
     elif kind in ("Polygon", "ConvexPolygon", "ConvexSpheropolygon"):
